@@ -4,6 +4,8 @@ from kprop import run_k_property
 SPECS = [
     dict(name="c05_small_bytes_roundtrip", batch="sb", tiers=("quick", "thorough"), bound="every byte string of length <= 24 (inline <= 22, boxed 23..24), unwind 42",
          what="SmallBytes::from(&[u8]): deref round trip, len, representation switch at 22/23, Hash stream equals the slice's, From<Vec<u8>> equal", timeout=900),
+    dict(name="c05_small_bytes_len_1100", batch="sb", tiers=("quick", "thorough"), bound="every length <= 1100 (content all zero: copies are memcpy of a symbolic size)",
+         what="SmallBytes::from(&[u8]) stores a value of the input's length, with the right representation (length arithmetic beyond the symbolic-content bound)", timeout=900),
     dict(name="c05_small_bytes_eq", batch="sb", tiers=("quick", "thorough"), bound="every pair of byte strings of length <= 4",
          what="SmallBytes equality is slice equality and equal values hash alike", timeout=900),
 ]
